@@ -4,6 +4,12 @@ MODULES = {
     # name -> where the package under test lives in /repo and which harness directory is overlaid into it
     "rueidis": {"dir": ".", "harness": "rueidis"},
     "rueidiscompat": {"dir": "rueidiscompat", "harness": "rueidiscompat", "package": "rueidiscompat"},
+    "rueidisaside": {"dir": "rueidisaside", "harness": "rueidisaside", "package": "rueidisaside"},
+    "rueidislock": {"dir": ".", "pkgdir": "rueidislock", "harness": "rueidislock", "package": "rueidislock"},
+    "om": {"dir": "om", "harness": "om", "package": "om"},
+    "rueidislimiter": {"dir": "rueidislimiter", "harness": "rueidislimiter", "package": "rueidislimiter",
+                       "extra_mod": ["require github.com/anishathalye/porcupine v1.3.0"]},
+    "rueidisprob": {"dir": "rueidisprob", "harness": "rueidisprob", "package": "rueidisprob"},
 }
 
 REAL = ("all of package github.com/redis/rueidis built from /repo's working tree with -tags verif "
@@ -555,6 +561,90 @@ CHECKS = {
         "components": {"real": REAL, "stubs": STUBS},
         "assumptions": ["a failing io.Writer alone does not count as 'could not be consumed completely': the rest of that reply is discarded and the connection stays usable"],
     },
+    "C35": {
+        "level": "exploration",
+        "rule": ("one run = one seeded plan: a configuration (expected items, false-positive rate) drawn from typical values and from the edges of what "
+                 "NewBloomFilter accepts (rates from 5e-324 to the largest double below 1, 1 .. 4e9 items, bitmaps up to the 2^32-bit limit, filters of one bit; "
+                 "rejected configurations are counted, not judged), 1-2 rueidis clients with one BloomFilter object each on the same key, 2-5 tasks issuing "
+                 "Add/AddMulti/Exists/ExistsMulti/Count (Reset/Delete in 30% of the plans) with item lists that mix added and never-added items at seeded "
+                 "positions; a SCRIPT FLUSH by another client (NOSCRIPT fallback); in 35% of the plans one connection fault (reset, eof, executed-but-unanswered, "
+                 "eof inside a reply, or a stall of 0.2-30 s) placed while traffic is in flight. The real Go code runs against the model, which executes the "
+                 "Lua scripts the client sends (lualite) on a sparse bitmap. oracle: an Exists/ExistsMulti that was started after an Add/AddMulti of the item "
+                 "had returned nil, with no Reset/Delete that can have taken effect in between, reports the item present, one answer per key in key order; "
+                 "of two non-overlapping Count calls with no Reset/Delete in between the later is not smaller. An add that returned an error is not an add; a "
+                 "query that returned an error is judged only in plans without a fault. non-trivial = at least one answer judged; distinct = "
+                 "distinct event-log hash"),
+        "parts": [
+            {"module": "rueidisprob", "scenario": "bloom", "quick": 5000, "thorough": 250000},
+        ],
+        "expected_probes": ["configuration-accepted", "configuration-rejected", "add-and-query-by-different-tasks", "add-and-query-by-different-clients",
+                            "multi-answer-mixes-present-and-absent", "noscript-after-script-flush", "reset-or-delete-near-query", "count-positive",
+                            "hash-functions>=300", "bitmap-beyond-2^31-bits"],
+        "components": {"real": "package github.com/redis/rueidis/rueidisprob (sizing, murmur3 indexes, argument building, result aggregation, its Lua scripts as sent) and "
+                               "github.com/redis/rueidis built from /repo's working tree with -tags verif",
+                       "stubs": dict(STUBS, **{"lua": "verifsim/lualite interprets the scripts the client sends", "bitmaps": "verifsim/fakeredis cmd_prob.go: sparse pages, whole 2^32-bit range"})},
+        "assumptions": [
+            "fakeredis (BITFIELD/BITFIELD_RO u1 GET/SET, INCRBY, SET, DEL, GET, EVAL/EVALSHA(_RO), SCRIPT FLUSH) and lualite are correct; both have unit tests, including the shipped scripts as fixtures",
+            "the quantifier over configurations and histories is sampled, not enumerated; memory stays small because bitmaps are sparse (64-byte pages), the log of sub-commands is the largest structure (<= ~30 MB in runs with ~1000 hash functions)",
+            "a Reset/Delete that failed or never returned is assumed to be able to take effect at any later time",
+            "restrictions that keep runs a function of their seed (each was found by the determinism self-test): one multiplexed wire per client (with several, rueidis draws the wire from util.FastRand, which the verif seam serves from one shared counter); a retry delay without jitter (same reason); one fault per plan (a second one can hit the replacement connection inside its HELLO handshake, where a polling clean-up goroutine decides when the waiting caller gets on); no socket send-buffer limit; no call deadlines (see next item)",
+            "call deadlines are exercised only by the unregistered variant 'deadline' (-verif.variant=deadline): rueidisprob passes rueidis.BinaryString views of a pooled buffer as arguments and returns the buffer (zeroed) to its sync.Pool when the call returns, so a command still queued when its caller's context ends is written later with zeroed or reused arguments; what is then on the wire depends on sync.Pool and does not replay. The variant reports it as rule arguments-changed-after-return",
+            "the number of hash functions and the bitmap size are read from the filter object for labels and probes only; no verdict depends on them",
+        ],
+    },
+    "C36": {
+        "level": "exploration",
+        "rule": ("one run = one seeded plan on a counting Bloom filter (configurations as for C35 plus sizes up to 2^63 counters, since this constructor has no upper "
+                 "limit): 2-5 tasks issuing Add/AddMulti/Remove/RemoveMulti/Exists/ExistsMulti/ItemMinCount/ItemMinCountMulti on 1-2 clients, SCRIPT FLUSH ghost, "
+                 "faults as for C35. Every task removes only what its own earlier successful adds cover (per-task ledger, decided at run time), so "
+                 "every removal reaching the server is paired with an earlier completed add whatever the interleaving. oracle (part 1): with L = adds of x "
+                 "returned before the query started minus removals of x started before the query returned, L > 0 implies Exists reports x present and "
+                 "ItemMinCount >= L, per key in order. oracle (both parts): the model's command log is replayed on the filter's hash: no HINCRBY leaves a counter "
+                 "below zero, and every execution of the removal script changes the hash by exactly the complete decrements of some subset of the items it was "
+                 "given, keeping all counters >= 0 - so an item whose removal would go negative changes nothing. part 2 (variant impossible) also removes items "
+                 "never added and items more often than added (tiny filters in half of the plans so that counters are shared); presence is not judged there. "
+                 "non-trivial = at least one query judged with L > 0, or one removal that would go negative observed; distinct = distinct event-log hash"),
+        "parts": [
+            {"module": "rueidisprob", "scenario": "cbloom", "quick": 3000, "thorough": 200000},
+            {"module": "rueidisprob", "scenario": "cbloom", "variant": "impossible", "quick": 2000, "thorough": 100000},
+        ],
+        "expected_probes": ["configuration-accepted", "configuration-rejected", "add-and-query-by-different-tasks", "multiplicity>1", "noscript-after-script-flush",
+                            "removal-that-would-go-negative", "removal-call-mixes-possible-and-impossible", "hash-functions>=300"],
+        "components": {"real": "package github.com/redis/rueidis/rueidisprob and github.com/redis/rueidis built from /repo's working tree with -tags verif",
+                       "stubs": dict(STUBS, **{"lua": "verifsim/lualite interprets the scripts the client sends"})},
+        "assumptions": [
+            "fakeredis (HINCRBY, HGET, HMGET, INCRBY, DECRBY, EVAL/EVALSHA) and lualite are correct; the shipped removal script is a unit-test fixture of the model",
+            "the property does not say that a possible removal must take effect, nor anything about Count or Delete: not demanded",
+            "restrictions that keep runs a function of their seed (each was found by the determinism self-test): one multiplexed wire per client (with several, rueidis draws the wire from util.FastRand, which the verif seam serves from one shared counter); a retry delay without jitter (same reason); one fault per plan (a second one can hit the replacement connection inside its HELLO handshake, where a polling clean-up goroutine decides when the waiting caller gets on); no socket send-buffer limit; no call deadlines (see next item)",
+            "call deadlines are exercised only by the unregistered variant 'deadline' (-verif.variant=deadline): rueidisprob passes rueidis.BinaryString views of a pooled buffer as arguments and returns the buffer (zeroed) to its sync.Pool when the call returns, so a command still queued when its caller's context ends is written later with zeroed or reused arguments; what is then on the wire depends on sync.Pool and does not replay. The variant reports it as rule arguments-changed-after-return",
+            "with zero hash functions (accepted by the constructor for rates above ~0.71) Remove is not issued: the shipped script would loop forever in Lua 5.1 (zero loop step); the model would report its step budget as a harness gap",
+            "the removal script is recognised by the SHA-1 / text of the package's own script constant; its items are the consecutive ARGV groups of the size the client sent",
+        ],
+    },
+    "C37": {
+        "level": "exploration",
+        "rule": ("one run = one seeded plan on a sliding-window Bloom filter: configurations as for C35, windows of 1 s .. 1 h including odd numbers of milli- and "
+                 "microseconds, a constant server clock offset, 2-5 tasks issuing Add/AddMulti/Exists/ExistsMulti (Reset/Delete in 20% of the plans) on 1-2 clients; "
+                 "the scheduler advances the fake clock in steps of window/100 .. window/2 - 1.5 ms (and 0.1 / 1 ms) between and inside calls, half of the plans have a watcher task that adds one item and keeps asking about it, so rotations (an expiring lock key "
+                 "in the model) race with adds and queries; SCRIPT FLUSH ghost, faults as for C35. oracle: an Exists/ExistsMulti that was started "
+                 "after an Add/AddMulti of the item had returned nil and that returned before start(add) + window/2 - 1 ms of fake time reports the item present, per key "
+                 "in order, absent a Reset/Delete that can have taken effect in between (sound for any server-side instants: the add took effect no earlier than "
+                 "its start, the query was evaluated no later than its return). non-trivial = at least one answer judged; distinct = distinct event-log hash"),
+        "parts": [
+            {"module": "rueidisprob", "scenario": "sbloom", "quick": 5000, "thorough": 250000},
+        ],
+        "expected_probes": ["configuration-accepted", "configuration-rejected", "rotated", "rotated>2", "judged-across-a-rotation", "judged-in-last-quarter-of-half-window",
+                            "added-item-reported-absent-after-its-window", "add-and-query-by-different-clients", "noscript-after-script-flush"],
+        "components": {"real": "package github.com/redis/rueidis/rueidisprob and github.com/redis/rueidis built from /repo's working tree with -tags verif",
+                       "stubs": dict(STUBS, **{"lua": "verifsim/lualite interprets the scripts the client sends", "bitmaps": "verifsim/fakeredis cmd_prob.go"})},
+        "assumptions": [
+            "fakeredis (TIME, SET PX NX with expiry on the simulated clock, RENAME, MSET, EXISTS, BITFIELD) and lualite are correct; the shipped add script is a unit-test fixture of the model",
+            "the clock is the fake clock of the run; client and server share it up to a constant offset (clock jumps are outside the property)",
+            "restrictions that keep runs a function of their seed (each was found by the determinism self-test): one multiplexed wire per client (with several, rueidis draws the wire from util.FastRand, which the verif seam serves from one shared counter); a retry delay without jitter (same reason); one fault per plan (a second one can hit the replacement connection inside its HELLO handshake, where a polling clean-up goroutine decides when the waiting caller gets on); no socket send-buffer limit; no call deadlines (see next item)",
+            "call deadlines are exercised only by the unregistered variant 'deadline' (-verif.variant=deadline): rueidisprob passes rueidis.BinaryString views of a pooled buffer as arguments and returns the buffer (zeroed) to its sync.Pool when the call returns, so a command still queued when its caller's context ends is written later with zeroed or reused arguments; what is then on the wire depends on sync.Pool and does not replay. The variant reports it as rule arguments-changed-after-return",
+            "window/2 is half of the Duration passed to the constructor; the last millisecond before the boundary is not judged (resolution of a Redis clock and of PX; the model itself keeps nanoseconds)",
+        ],
+    },
     "C30": {
         "level": "exploration",
         "rule": ("plans: 1-4 Lua objects of the kinds NewLuaScript / ReadOnly / NoSha / ReadOnlyNoSha / Retryable / NoShaRetryable (a third of the SHA kinds with "
@@ -613,4 +703,263 @@ CHECKS = {
         "assumptions": ["arguments a go-redis program could not pass (odd key/value lists, wrongly typed variadics) may make the adapter panic while queuing; that is not judged",
                         "when Exec itself reports a transport or context error the individual results are not judged"],
     },
+    "C23": {
+        "level": "exploration",
+        "rule": ("one run = one real sentinelClient (primary only / SendToReplicas split / ReplicaOnly) against three model sentinels and three data nodes "
+                 "(one master, two replicas sharing its data) under one seeded schedule; 2-5 tasks issue attributable Do/DoMulti/DoStream/DoMultiStream/DoCache "
+                 "traffic while a seeded story unfolds: failovers with +switch-master announced by each sentinel in its own time (roles first, or announcement "
+                 "first so that the ROLE check meets a node that is not a master yet), role flips nobody announces, sentinels with stale or diverging views "
+                 "(also before the client exists), +slave/+sdown/-sdown/+reboot/+sentinel events, loss and return of a data node or a sentinel, resets/EOFs of "
+                 "single sentinel, master and replica connections (also after the server executed); then faults stop, every sentinel agrees on a final master, "
+                 "+switch-master to it is delivered, the client is left to settle and four fresh writes are issued. The client's connections are labelled (in-package "
+                 "connFn) with the role it opened them for. Oracle from the model's logs: every user command on the primary path (mode and SendToReplicas "
+                 "predicate of the plan) arrived on a logical connection whose most recent ROLE answer the client had received before writing the command was "
+                 "'master' ('slave' for the replica path), at an address some sentinel had named as master to this client before (GET-MASTER-ADDR-BY-NAME reply, "
+                 "+switch-master or +reboot master event); no command without a received ROLE answer; after the delivered final +switch-master and the quiet "
+                 "period every fresh write that reaches a node reaches the final master and the last one does reach it; "
+                 "non-trivial = commands were judged and a +switch-master was delivered or a ROLE check refused a node; distinct = distinct event-log hash"),
+        "parts": [
+            {"module": "rueidis", "scenario": "sentinel-follow", "quick": 5000, "thorough": 400000},
+            {"module": "rueidis", "scenario": "sentinel-follow", "variant": "calm", "quick": 1000, "thorough": 100000},
+        ],
+        "expected_probes": ["switch-master-delivered", "role-check-refused-node", "sentinels-named-different-masters", "event-deferred-while-mutex-busy",
+                            "primary-traffic-met-demoted-node", "sentinel-lost", "node-lost", "connection-lost", "liveness-judged"],
+        "components": {"real": REAL, "stubs": STUBS},
+        "assumptions": [
+            "'that connection' is the client's logical connection to an address (one multiplexer: its pipelined connection plus its pooled connections, including "
+            "connections the multiplexer re-dials to the same address without a new ROLE check); the ROLE answer counts from the step in which its last byte was delivered to the client",
+            "sentinelClient.mu is a sync.Mutex held across network I/O: while a refresh is in flight or the mutex is held (both observed in-package at quiescence) sentinel events "
+            "are not published, Close is not started and sentinel connections are broken only if the holder is a refresh; while a subscription goroutine has not yet sent its "
+            "SUBSCRIBE, events are deferred too (two live subscriptions would run two callbacks for one event, the second blocking on the held mutex); deferred operations are never dropped; "
+            "events are delivered in the step in which they are published. Role flips, view changes, node loss and data-connection faults are not gated",
+            "a refresh that cannot succeed retries without pause: the main phase is cut 1200 scheduler steps after the last planned operation, then the world is repaired",
+            "liveness is judged only when the final +switch-master reached a live subscription of the client and the client settled (no refresh in flight, nothing pending) within "
+            "4000 scheduler steps / 30 s of idle fake time; ReplicaOnly clients and SendToReplicas=always have no primary path and are not judged for it",
+            "dedicated clients and blocking commands are not part of the workload (a dedicated connection stays pinned to its node by design); RESP3 only; one wire per multiplexer",
+            "pickReplica draws from the seeded util.FastRand seam",
+            "determinism self-test (vcheck.py selftest determinism sentinel-follow): variant calm 200 seeds x 9 processes 0 divergent; default variant 1 of 200 seeds divergent "
+            "(seed 424365, 6 of 96 repetitions under load). Source: the clean-up loop of a dead pipe (one fake millisecond per turn) races with the exit of that pipe's writer "
+            "goroutine, so a caller of a connection that was reset during its HELLO is released at T or T+1 ms and one idle tick appears or not before the next lock grant; "
+            "verdicts did not differ. No barrier was added here (the scheduler-level Settle barrier is to be switched on for this scenario by the lead)",
+        ],
+    },
+    "C39": {
+        "level": "exploration",
+        "rule": ("plans: 2-3 real CacheAsideClients (each with its own rueidis client on one pipelined connection; lock variant per client: plain SET NX GET PX or the "
+                 "UseLuaLock script, mixed within a run; ClientTTL 1/2/4 s) share one simulated Redis; 2-8 tasks issue 1-4 calls each: Get (plain or through "
+                 "TypedCacheAsideClient) on 1-3 shared keys with TTLs of 2-8 s of fake time and a loader that returns a value unique to the invocation (instantly, or after "
+                 "50 ms..2.5 s of fake time, optionally with OverrideCacheTTL) or fails with a unique error, and Del; the environment: ghost SET / DEL of the data keys, "
+                 "a placeholder left by a process that never existed, SCRIPT FLUSH, reply cuts at any byte, connection faults (reset, EOF, reset after the server executed, "
+                 "EOF mid-reply), and the silent death of one client (nothing moves on its connections any more in either direction and nobody is told, its dials are "
+                 "refused, its tasks are abandoned, no Close) - in 70% of those plans at a moment when its placeholder is stored under a data key; in half of the runs fake "
+                 "time only advances when nothing else can happen (tight clock). The package's three Lua scripts execute in fakeredis + lualite. After the workload every "
+                 "fault is healed, max(ClientTTL) of fake time passes, and every live client issues one fresh Get per key (probe). "
+                 "Oracle, from the results of all Gets, the record of all loader invocations and the model's history of every key (value after each modification, writer, "
+                 "step, fake time): (1) no Get returns, with a nil error, a value carrying PlaceholderPrefix; (2) every value returned with a nil error was produced by a "
+                 "loader invocation for that key, or stored under that key by the ghost writer, before the Get returned; (3) load once: every loader invocation is covered by "
+                 "a lock acquisition of its own client on that key made during its Get and not needed by another invocation - one that is not, and runs while another "
+                 "holder's placeholder is in place, that holder alive (liveness key present, client not killed) and loading itself, is a violation; and (tight clock only) two "
+                 "loaders for one key never run at the same time because a client removed the placeholder of a holder that never lost a connection and was not killed; "
+                 "(4) a Get does not give up with its context error, without having run its loader, on a healthy client, when for the last 3 s of fake time before that the "
+                 "key was not locked by a live holder (it held a value, nothing, or a placeholder whose liveness key did not exist): waiters get the loaded result, and a dead "
+                 "client's lock (liveness key lapsed by ClientTTL in the model) is taken over; every probe Get succeeds; (5) a Get that returns its loader's error on a healthy "
+                 "client has removed its placeholder by the time it returns; (6) every Get of a client that was not killed returns. "
+                 "non-trivial = two Gets of different clients on one key overlapped in time and a loader ran, or a waiter returned another call's loaded value; "
+                 "distinct = distinct SHA-256 of the event log"),
+        "parts": [
+            {"module": "rueidisaside", "scenario": "aside", "quick": 4000, "thorough": 240000},
+            {"module": "rueidisaside", "scenario": "aside", "variant": "calm", "quick": 1500, "thorough": 80000},
+        ],
+        "expected_probes": ["gets-of-two-clients-overlapped", "waiter-on-another-client-got-the-result", "waiter-on-same-client-got-the-result",
+                            "client-died-holding-a-lock", "dead-clients-lock-released-by-another-client", "foreign-placeholder-removed", "loader-failed",
+                            "lua-lock-client", "setnx-lock-client", "two-loaders-ran-concurrently-for-one-key", "get-gave-up-waiting", "script-flush-planned"],
+        "components": {"real": "packages github.com/redis/rueidis/rueidisaside (aside.go, typed_aside.go, its Lua scripts) and github.com/redis/rueidis built from /repo's working tree with -tags verif",
+                       "stubs": dict(STUBS, **{"Lua interpreter": "verifsim/lualite inside fakeredis (EVAL / EVALSHA / SCRIPT FLUSH)",
+                                               "math/rand (client ids)": "global source seeded per run by the driver; draws serialised by the scheduler (see assumptions)"})},
+        "assumptions": [
+            "client ids come from the global math/rand source (aside.go randStr), not from the seeded util seam: the driver seeds it per run, and the scenario gives every client a "
+            "rueidis.Client wrapper (public ClientBuilder option) that parks the caller after a DoCache miss on a data key and after the reply to a SET of a liveness key, so that "
+            "concurrent draws and the choice of the winning id are scheduler decisions; the wrapper also names the calling task on the context.Background() calls the package "
+            "makes (lock release), a value-only context with a nil Done channel",
+            "one pipelined connection per client (PipelineMultiplex -1) and a jitter-free RetryDelay: with several wires rueidis picks the wire through util.FastRand, whose seeded seam "
+            "hands out values by a global counter, and the liveness refreshes of several clients fire in the same fake instant",
+            "'alive' in rule 3 means: the client was not killed and, for the first half, its liveness key exists in the model; the second half (a live holder is never taken for dead) is "
+            "judged only in tight-clock runs and only for holders that never lost a connection, because otherwise a refresh delayed by the scheduler by ClientTTL/2 is a legitimate lapse",
+            "the 3 s in rule 4 is a scheduling allowance of this harness (a handful of round trips, each delayable by a few ticks of at most 300 ms), not a constant of the implementation; "
+            "Gets with a TTL below 3 s are therefore never judged by rule 4",
+            "external removal of a lock (ghost DEL / SET, Del by a caller, the placeholder's own TTL running out under a slow loader) legitimately lets a second loader run: such "
+            "pairs are counted as not judged",
+            "a Get whose context ends between the server executing its lock acquisition and the reply leaves a placeholder of a live holder until its TTL; the property does not "
+            "speak about it: probes that meet a live holder's placeholder are not judged",
+            "freshness of returned values (client-side caching may serve a value until its invalidation arrives) and the setkey ownership check (a late loader must not overwrite a "
+            "newer lock) are outside the property as stated: a setkey without the comparison is not detected",
+            "loaders ignore their context (a select between a timer and ctx.Done() that become ready in the same fake instant would be resolved by the Go runtime)",
+        ],
+    },
+    "C34": {
+        "level": "exploration",
+        "rule": ("plans: 1-3 Lockers of package rueidislock, each on its own rueidis client and connection to one model node (tracking OPTOUT+NOLOOP, "
+                 "KeyMajority 2-3 = 3-5 keys per name, KeyValidity 1/2/5 s of fake time, ExtendInterval default or a quarter of the validity, SET PXAT or "
+                 "FallbackSETPX), 2-5 tasks running 1-3 sessions 'WithContext / TryWithContext (variant force: also ForceWithContext) - hold 0..8 validities "
+                 "or until the lock context ends - cancel()' on one or two lock names; half of the plans are clean, the others add ghost clients (DEL of some "
+                 "or all keys of a name, PEXPIRE 1 ms, SET of a foreign value, FLUSHALL) and faults (connection reset / EOF / reset after the server "
+                 "executed, stalls of a third to five validities, node restart with refused dials and script cache lost). The Lua scripts the client "
+                 "sends are executed by the model (lualite); lock values come from a per-task counter behind the RandomBytes seam, so every key value "
+                 "names the attempt that wrote it. A mirror of the lock keys is replayed from the model's execution log and compared with the model's "
+                 "dataset after every step. For a holder H (a call that returned a context), 'owns' = keys carrying H's value; 'lost' = a key carrying "
+                 "H's value expired or was deleted/overwritten by a ghost, a forced takeover or an extension that arrived after its own deadline. "
+                 "Rules, evaluated at every quiescent point (every goroutine durably blocked): two-live-holders = two holders of one name have live "
+                 "contexts and neither is 'lost' (names with ForceWithContext not judged); success-without-majority / released-while-live / "
+                 "gave-up-keys-while-live / keys-taken-while-live = a live holder that is not 'lost' owns fewer than KeyMajority keys; "
+                 "loss-not-noticed = a live holder owns fewer than KeyMajority keys for longer than KeyValidity + ExtendInterval + KeyValidity/2 + 1 s; "
+                 "at the end of a run that went idle (only the clock left): waiter-* = a WithContext call whose context was never cancelled is still "
+                 "waiting although nobody holds the name and a majority of its keys is free (sub-rules name the cause chain: asleep-after-own-failure, "
+                 "not-woken-by-same-locker-release-under-noloop, stranded-behind-failed-attempt, missed-wakeup). "
+                 "non-trivial = at least one holder and at least one attempt was refused because a key was held; distinct = distinct event-log hash"),
+        "parts": [
+            {"module": "rueidislock", "scenario": "lock", "quick": 900, "thorough": 40000, "procs": (1, 1, 2)},
+            {"module": "rueidislock", "scenario": "lock", "variant": "force", "quick": 240, "thorough": 10000, "procs": (1, 1, 2)},
+            {"module": "rueidislock", "scenario": "lock", "variant": "trynext", "quick": 120, "thorough": 6000, "procs": (1, 1, 2)},
+        ],
+        "expected_probes": ["acquire-refused-key-held", "waiter-acquired-after-waiting", "extension-executed", "ghost-del-of-live-holder-key",
+                            "holder-key-expired", "loss-noticed", "key-overwritten", "fault-fired:stall", "fault-fired:node-restart",
+                            "fault-fired:reset-after-exec", "noscript-fallback"],
+        "components": {"real": "package github.com/redis/rueidis/rueidislock (NewLocker, With/Try/ForceWithContext, monitors, gates, the acquire/extend/delete Lua scripts) and "
+                               "package github.com/redis/rueidis built from /repo's working tree with -tags verif",
+                       "stubs": dict(STUBS, **{"Lua interpreter": "verifsim/lualite executing the scripts the client sends (EVALSHA / EVAL)",
+                                               "lock values (util.RandomBytes)": "per-task counter installed by the harness through the verif random seam"})},
+        "assumptions": [
+            "NoLoopTracking only: without NOLOOP every extension invalidates the holder's own key and the monitors' select sees timer, context and invalidation together; "
+            "which case runs is a coin toss of the Go runtime that no seed controls (determinism could not be kept), so the default tracking mode is not exercised",
+            "KeyMajority 1 is excluded for the same reason: lock.go starts the monitor of a refused key before try() counts the failure, and with a single key the monitor "
+            "may read the counter first (spurious gate token and a second w--); with three or more keys the counter is settled before the last monitor ends",
+            "WithContext calls get no deadline and no cancellation (a cancellation landing while a wake-up token is pending is again a runtime coin toss); Try/Force calls do",
+            "DisableCache (polling) mode is not exercised",
+            "main part and variant force set TryNextAfter far above any latency the scheduler produces, so attempts do not fail on their own 20 ms time-outs; variant "
+            "trynext uses the default 20 ms / 200 ms in clean plans (that is where waiter-asleep-after-own-failure shows without any fault)",
+            "unregistered exploratory variants of the scenario (not reproducible run by run, hence not parts of the check): optout (default tracking mode), maj1 (KeyMajority 1), "
+            "giveup (directed at gave-up-keys-while-live: caller deadlines 3 ms after an extension timer plus connection faults; about 2 % of its runs diverge between processes)",
+            "'promptly' is taken as KeyValidity + ExtendInterval + KeyValidity/2 + 1 s of fake time: noticing a loss only at the next extension timer passes",
+            "s2c deliveries end at frame boundaries (one reply or push per step) and goroutines parked under one identical identity are released together: both are needed "
+            "because rueidislock reacts to pushes on several goroutines at once",
+            "server and client share one clock (no clock offset between Lockers and Redis)",
+        ],
+    },
+    "C40": {
+        "level": "exploration",
+        "rule": ("one run = one seeded plan on package om: a HashRepository or JSONRepository (entity structs with one field of every type conv.go accepts - string, int64, "
+                 "bool, pointers to them, []byte, json.RawMessage, []float32, []float64, struct / *struct / []struct / time.Time / a json.Marshaler through encoding/json - "
+                 "or, for JSON, every type encoding/json round-trips, plus key, version and expiry fields) on 1-2 real rueidis clients with or without client-side caching "
+                 "(RESP3 or forced RESP2); 1-2 entities that exist or not at the start (first version 0..99999999999990); 2-6 tasks each doing 2-6 of Fetch / FetchCache (TTL 50 ms..60 s) / "
+                 "Save, where Save regenerates EVERY field from a salt (edge values: empty and binary strings with CR LF NUL and RESP look-alikes, 't'/'f', 3 kB strings, min/max "
+                 "integers, -0, max/min/denormal floats, NaN and infinities in hash vectors, nil vs empty slices and maps, nil pointers, zero and year-9999 times) on a copy of the "
+                 "entity last fetched (so two Saves without a fetch in between are based on the same version), on the very object a previous Save advanced, or on a fresh "
+                 "entity with version 0; 0-3 ghost writers (content change + version bump of 1-2, DEL, SCRIPT FLUSH); reply cuts; in a third of the plans 1-2 connection faults "
+                 "(reset, EOF, reset after execution, EOF mid-reply, 30 s stall, node restart with lost script cache and refused dials) on connections that carry user traffic. The save scripts run for real in fakeredis+lualite; each execution is "
+                 "attributed to its Save call by a unique tag. Reference: a versioned register per key advanced in the server's execution order. Oracle: (a) an execution on an "
+                 "existing key succeeds iff stored version == version of the entity passed to Save; Save returns nil iff its execution succeeded and ErrVersionMismatch iff it was "
+                 "refused; at most one Save returns nil per stored version instance; (b) a successful execution answers base+1, the entity passed to Save carries base+1 "
+                 "afterwards, and the raw record read back after every step that ran a script, decoded with the repository's own decoder, equals the saved entity in every "
+                 "field with version base+1; (c) Fetch returns an entity equal to a reference state current at some step of the call, FetchCache one equal to some reference "
+                 "state, and once every reply and push is delivered and nothing runs both return the latest state; "
+                 "non-trivial = at least one stored version instance had two or more Save executions against it; distinct = distinct event-log hash"),
+        "parts": [
+            {"module": "om", "scenario": "om", "variant": "json", "quick": 6000, "thorough": 500000},
+            {"module": "om", "scenario": "om", "variant": "hash", "quick": 6000, "thorough": 500000},
+            {"module": "om", "scenario": "om", "variant": "hash,clearptr", "quick": 400, "thorough": 15000},
+            {"module": "om", "scenario": "om", "variant": "hash,alias", "quick": 400, "thorough": 15000},
+        ],
+        "expected_probes": ["contended-version", "version-mismatch-returned", "chained-save-on-advanced-version", "noscript-fallback", "script-flush-ghost",
+                            "ghost-bumped-version", "ghost-deleted-entity", "cache-hit-served", "cached-read-older-than-current", "read-saw-a-workload-save",
+                            "save-failed-but-applied", "save-failed-and-refused", "fault-fired", "reply-cut"],
+        "components": {"real": "package github.com/redis/rueidis/om (repositories, converters, schema, both Lua save scripts) and github.com/redis/rueidis built from /repo's working tree with -tags verif",
+                       "stubs": dict(STUBS, **{"lua interpreter": "verifsim/lualite runs the save scripts; RedisJSON subset of verifsim/fakeredis (JSON.GET/SET/NUMINCRBY)"})},
+        "assumptions": [
+            "a Save that returned a transport error is not judged for its return value; whether it was applied is taken from the server's log (both are allowed)",
+            "a Save on a key that does not exist may succeed or be refused (the property speaks of saves based on a stored version); when it succeeds the version must still be base+1",
+            "equality is field-by-field: floats equal when bit-identical or ==, times by Equal; nil and empty differ, except for top-level []byte / []float32 / []float64 of a hash record (a hash field cannot tell them apart and the package does not say which comes back)",
+            "JSON entities: strings are valid UTF-8, floats finite (encoding/json refuses the rest), unsigned values <= MaxInt64 (the model keeps larger integers as floats); hash entities: nested struct fields obey the same limits, top-level strings and bytes are arbitrary",
+            "HashRepository.toExec ranges over a Go map, so the argument order of a hash Save differs from process to process; nothing else does: the scheduler log omits the request content hash for hash plans (sched.Config.NoPayloadHash) and the scenario logs every script call in canonical (sorted) form instead",
+            "versions stay below 1e14 in the registered parts: Lua formats larger numbers as 1e+14 (variant bigver demonstrates what happens then)",
+            "FetchCache freshness while writes are in flight is C06's subject; here a cached read may be any stored state, and must be the latest one only at rest",
+            "SaveMulti, verless entities, expiry that fires during the run and RediSearch calls are not exercised; ghost writers only ever increase the version (no ABA)",
+            "part 3 (hash,clearptr) lets top-level pointer fields of a hash entity go from a value back to nil; the other parts keep the nil-ness of each such field fixed per run so that what part 3 shows (rule nil-pointer-field-kept-old-value) does not mask anything else",
+            "part 4 (hash,alias) adds callers that edit the byte slices of a fetched entity in place before building their next Save from a copy (call kind scribble); what it shows is reported under rule fetched-entity-shares-memory-with-cache",
+            "plans with connection faults run the clients on the flow-buffer queue, the others on the ring or the flow buffer; a connection is eligible for a fault once it has carried a user command; the clean-up loop of a dead pipe spins for real (bounded) before it polls in simulated time (rueidis.VerifCleanupSpinBudget); the default RetryDelay is replaced by a jitter-free one; the log hash covers set-up, workload and final reads but not client.Close - each of these removes a race inside rueidis' teardown paths that the Go runtime, not the scheduler, decides (see the comments in scen_om_test.go)",
+        ],
+    },
+    "C38": {
+        "level": "exploration",
+        "rule": ("plans: 2-8 tasks calling Allow / AllowN(n in 0..limit+2) / Check on 1-3 rate limiter instances (own rueidis client and connection(s) each, normally one "
+                 "key prefix so identifiers are shared), 1-3 identifiers, limits 1..20, windows 50 ms..5 s of fake time crossed by scheduler ticks (tick sizes w/10, w/2, w, w+1 "
+                 "put calls before, exactly on and after window boundaries), per-call WithCustomRateLimit in a third of the plans, ghost SCRIPT FLUSH; variants: connection "
+                 "faults (reset, eof, reset after execution, eof inside a reply, stall; on established connections), context deadlines, a server clock offset. The real rateLimitScript runs in the model (lualite) from the EVAL/EVALSHA the client sends. "
+                 "oracle (a): per (key, ResetAtMs) the n of calls with n>0 that reported Allowed add up to <= the limit. oracle (b): the history of every key (<= 40 calls, Call/"
+                 "Return = scheduler steps of start / observed return) is linearizable (porcupine v1.3.0, deterministic step budget instead of a wall-clock timeout; undecided = "
+                 "not judged) against a sequential fixed-window counter written from the property text: windows are identified by ResetAtMs, Remaining == max(limit - units "
+                 "requested so far in that window including this call and denied ones, 0), Check adds nothing, admitted units per window <= limit, a call is counted in window W "
+                 "only if it began at or before W, leaves a window only if that window is over by the time the call ends (a call exactly on the boundary may go either way), and "
+                 "the window it reports contains an instant of the call. Not demanded: that a fitting request is admitted, what Check's Allowed means. A call that returned an "
+                 "error or never returned is not judged; in the model it may have been counted (with its own n, once) at any later time or not at all. Violations are named by "
+                 "cause: over-admission-by-late-call / window-restarted-for-late-call when the history is explained by a window (same ResetAtMs) found at zero again by a call "
+                 "answered after that window had ended; request-nobody-made-was-counted when the server executed the script with arguments no call had; over-admission / "
+                 "not-a-fixed-window-counter otherwise. non-trivial = a key whose judged history had calls of different tasks overlapping; distinct = distinct event-log hash"),
+        "parts": [
+            {"module": "rueidislimiter", "scenario": "limiter", "quick": 1800, "thorough": 40000},
+            {"module": "rueidislimiter", "scenario": "limiter", "variant": "faults", "quick": 1200, "thorough": 25000},
+            {"module": "rueidislimiter", "scenario": "limiter", "variant": "skew", "quick": 400, "thorough": 10000},
+            {"module": "rueidislimiter", "scenario": "limiter", "variant": "deadline", "quick": 1200, "thorough": 25000},
+        ],
+        "expected_probes": ["window-rollover", "concurrent-calls-on-one-identifier", "request-denied", "window-filled-exactly", "call-exactly-at-window-boundary",
+                            "identifier-shared-by-limiter-instances", "custom-rate-limit-used", "noscript-fallback-to-eval", "errored-call-possibly-counted"],
+        "components": {"real": "packages github.com/redis/rueidis/rueidislimiter (incl. its Lua script, interpreted by verifsim/lualite) and github.com/redis/rueidis built from /repo's working tree with -tags verif",
+                       "stubs": STUBS},
+        "assumptions": ["fakeredis models GET, SET ... PXAT, INCRBY and key expiry (lazy, also inside a script, and active) like Redis 7; lualite interprets the script like Lua 5.1",
+                        "all limiter instances live in one process and read one (fake) clock; clock differences between client machines are not explored",
+                        "the server clock is at most 400 ms ahead of the clients' clock in the skew part (it may be behind by any amount): a server clock further ahead expires the keys before "
+                        "the window ends and the limiter then admits more than the limit (variant skew-ahead shows it; the property does not quantify over clocks, so it is not a registered part)",
+                        "plans with context deadlines run with GOMAXPROCS=1, no garbage collection during the run and a fresh buffer pool, and every deadline expires at an instant of its own, because "
+                        "rueidislimiter keeps its command arguments in a sync.Pool buffer whose reuse is otherwise decided by the Go runtime",
+                        "every client uses one connection (PipelineMultiplex -1): with several, the wire of each command comes from util.FastRand, and callers woken by one delivery that "
+                        "send a follow-up command (NOSCRIPT, then EVAL) draw from the seeded stand-in in an order chosen by the Go runtime; connections of different limiter instances still interleave",
+                        "faults strike connections that have finished their handshake and carried workload commands, and in the faults part every task has a limiter instance (connection) of its own, so a "
+                        "broken connection has at most one caller in flight; the log hash covers the workload phase, not the closing of the clients afterwards. Residual: the teardown of a broken pipe inside "
+                        "rueidis (writer and reader contending for a ring slot) occasionally adds a lock-grant event: 2 divergent log hashes in 300 seeds x 9 processes of the faults part under heavy machine "
+                        "load, none in 200 x 9 of each other part; verdicts do not depend on it, and a replay whose hash differs is reported by the driver as exit 2, never as a verdict",
+                        "the step budget of the linearizability search (20000 model steps, at most 256 alternative states) is deterministic; porcupine's wall-clock timeout is not used because it would be a timer "
+                        "of the fake clock of the bubble the check runs in; budget exhausted = verdict Unknown = counted as not judged (linearizability-undecided)"],
+    },
 }
+
+# ---- C21: sentinel + standalone parts (builder ag-sentinel), added to the entry that holds the cluster part ----
+_C21_SS = {
+    "rule": ("standalone part (standalone-route): 1-3 standalone clients with 1-3 configured replicas (the model's primary and replicas share one dataset), SendToReplicas "
+                 "predicates that are pure functions of the command (read-only flag, a marker in the arguments, always, never; every call is logged), with and without "
+                 "EnableReplicaAZInfo (= non-empty / empty candidate list), with and without a constant ReadNodeSelector returning 0, an in-range replica index, one past the "
+                 "end, far out or a negative number; 2-5 tasks issue Do, DoMulti (uniform and mixed opt-in), DoStream, DoMultiStream, DoCache and Receive with attributable "
+                 "commands; a third of the plans reset connections. Oracle: a command the model received on a configured replica (role slave) belongs to a call for "
+                 "which the predicate is true for every command; when the selector's result lies outside the candidate list it was given, every command of that client is "
+                 "received by the primary. sentinel part (sentinel-follow, see C23): a command received on a connection the client opened as replica connection, or on a "
+                 "node that had answered ROLE as slave on that connection, belongs to a call for which SendToReplicas is true for every command or the client is ReplicaOnly; "
+                 "non-trivial = commands were judged and a replica served one, a batch had partial opt-in, or a selector result was out of range; distinct = distinct event-log hash"),
+    "parts": [
+        {"module": "rueidis", "scenario": "standalone-route", "quick": 5000, "thorough": 300000},
+        {"module": "rueidis", "scenario": "sentinel-follow", "quick": 2500, "thorough": 100000},
+    ],
+    "expected_probes": ["replica-served", "batch-with-partial-opt-in", "selector-negative", "selector-past-the-end", "selector-empty-candidate-list",
+                        "selector-chose-replica", "stream-on-replica", "batch-on-replica"],
+    "assumptions": [
+        "standalone part: standalone.pick uses the unseedable math/rand/v2 when several replicas are configured without a selector: such plans always carry a selector, and selectors are constant functions",
+        "sentinel part: a node that was demoted after the client's ROLE check may receive primary-path commands until the client learns of it; that is counted, not judged",
+        "standalone part: cached reads of the standalone client always go to the primary; that is allowed by the property (replicas only WITH opt-in, not always with opt-in)",
+        "standalone part: EnableRedirect (which excludes ReplicaAddress) is not exercised",
+    ],
+}
+if "C21" in CHECKS:
+    CHECKS["C21"]["rule"] = CHECKS["C21"]["rule"] + " || " + _C21_SS["rule"]
+    CHECKS["C21"]["parts"] = CHECKS["C21"]["parts"] + _C21_SS["parts"]
+    CHECKS["C21"]["expected_probes"] = CHECKS["C21"].get("expected_probes", []) + _C21_SS["expected_probes"]
+    CHECKS["C21"]["assumptions"] = CHECKS["C21"].get("assumptions", []) + _C21_SS["assumptions"]
+else:
+    CHECKS["C21"] = dict(_C21_SS, level="exploration", components={"real": REAL, "stubs": STUBS})
+# ---- end of the ag-sentinel block ----
